@@ -1,4 +1,4 @@
-CONSTANTS CiStart = 14 K = 6 NP = 2 Sizes = {0, 1, 2, 4, 7} Fills = {0, 1, 2} MaxBlocks = 2 Faults = {"none", "drop", "err1", "err2"} Units = {"mrag0", "mrag1", "pgu", "pgt", "s1", "s2", "s3", "s4", "c1", "c2", "bp", "bs", "fill", "sh"} Policies = {"strict", "lenient"} UnitBlocks = 2 TailCheck = TRUE Foreign = {"none", "page", "stream", "mag"} TailAtForeign = TRUE
+CONSTANTS CiStart = 14 K = 6 NP = 2 Sizes = {0, 1, 2, 4, 7} Fills = {0, 1, 2} MaxBlocks = 2 Faults = {"none", "drop", "err1", "err2"} Units = {"mrag0", "mrag1", "pgu", "pgt", "s1", "s2", "s3", "s4", "c1", "c2", "bp", "bs", "fill", "sh"} Policies = {"strict", "lenient"} UnitBlocks = 2 TailCheck = TRUE Foreign = {"none", "page", "stream", "mag"} TailAtForeign = TRUE Noise = {0} NoisePos = {"all"} NoiseFaults = {"none"}
 SPECIFICATION Spec
 INVARIANTS Sound Complete Resume LeapAgrees
 CHECK_DEADLOCK FALSE
